@@ -291,6 +291,56 @@ fn mat_translate_vector_linear_part() {
     assert!(r.x() == v.x() && r.y() == v.y() && r.z() == v.z());
 }
 
+// @ob props=C09,C08 tier=quick kind=B cfg=core-std timeout=1200
+// @fn Matrix::then ; Matrix::compose ; Mat4x4<RealToReal>::apply_pt
+// @bound the non-commutative family a = scale(2, 4, 8), b = translate(t) for ALL finite t (products by the constant scale factors are exact)
+// @clause applying a composed transform equals applying its parts in order and then() is compose() with the operands swapped: a.then(b) = b.compose(a) = "scale, then translate" (rows [2,0,0,tx], [0,4,0,ty], [0,0,8,tz]), b.then(a) = "translate, then scale" (last column 2tx, 4ty, 8tz); a.then(b) applied to a point equals b applied to (a applied to the point)
+#[cfg(not(verif_skip_mat_then_order_scale_translate))]
+#[kani::proof]
+#[kani::unwind(6)]
+fn mat_then_order_scale_translate() {
+    let t = any_vec3();
+    let (a, b) = (scale(vec3(2.0, 4.0, 8.0)), translate(t));
+    let (ab, ba) = (a.then(&b), b.then(&a));
+    let (c1, c2) = (b.compose(&a), a.compose(&b));
+    kani::cover!(t.x() != 0.0);
+    let want_ab = [[2.0, 0.0, 0.0, t.x()], [0.0, 4.0, 0.0, t.y()], [0.0, 0.0, 8.0, t.z()], [0.0, 0.0, 0.0, 1.0]];
+    let want_ba = [[2.0, 0.0, 0.0, 2.0 * t.x()], [0.0, 4.0, 0.0, 4.0 * t.y()], [0.0, 0.0, 8.0, 8.0 * t.z()], [0.0, 0.0, 0.0, 1.0]];
+    let mut i = 0;
+    while i < 4 {
+        let mut j = 0;
+        while j < 4 {
+            assert!(ab.0[i][j] == want_ab[i][j] && c1.0[i][j] == want_ab[i][j]);
+            assert!(ba.0[i][j] == want_ba[i][j] && c2.0[i][j] == want_ba[i][j]);
+            j += 1;
+        }
+        i += 1;
+    }
+    // apply(compose) = apply in order, on a point with small integer coordinates (all sums exact up to one rounding)
+    let p = pt3(3.0, -5.0, 7.0);
+    let (q, r) = (ab.apply_pt(&p), b.apply_pt(&a.apply_pt(&p)));
+    assert!(q.x() == r.x() && q.y() == r.y() && q.z() == r.z());
+}
+
+// @ob props=C09 tier=quick kind=P cfg=core-std timeout=1200
+// @fn Matrix::then ; Matrix::compose ; Mat4x4::identity
+// @clause composing ANY finite 4x4 matrix with the identity, on either side, returns the matrix unchanged (element-wise equal)
+#[cfg(not(verif_skip_mat_compose_identity))]
+#[kani::proof]
+#[kani::unwind(6)]
+fn mat_compose_identity() {
+    let els: [[F; 4]; 4] = kani::any();
+    let m: Mat4x4<RealToReal<3>> = Matrix::new(els);
+    let id = Mat4x4::<RealToReal<3>>::identity();
+    let (l, rr) = (id.then(&m), m.then(&id));
+    let (i, j): (usize, usize) = (kani::any(), kani::any());
+    kani::assume(i < 4 && j < 4);
+    kani::assume(els[i][0].is_finite() && els[i][1].is_finite() && els[i][2].is_finite() && els[i][3].is_finite());
+    kani::assume(els[0][j].is_finite() && els[1][j].is_finite() && els[2][j].is_finite() && els[3][j].is_finite());
+    kani::cover!(i != j);
+    assert!(l.0[i][j] == els[i][j] && rr.0[i][j] == els[i][j]);
+}
+
 // @ob props=C09 tier=thorough kind=B cfg=core-std timeout=5400
 // @fn Matrix::then ; Matrix::compose
 // @bound the non-commutative family a = scale(s), b = translate(t), all finite s, t in [-1e3, 1e3]; first output row
